@@ -62,7 +62,8 @@ type LCase struct {
 	Init         TBlind  `json:"init_blind"`
 	JoinAtCreate bool    `json:"join_at_create,omitempty"` // the players are handed to CreateTable (an MTT table created by the balancer)
 	Created      string  `json:"status_after_create,omitempty"`
-	Directed     string  `json:"directed,omitempty"` // late_level: blinds missing at start, supplied while the first open is being retried
+	Directed     string  `json:"directed,omitempty"`          // late_level: blinds missing at start, supplied while the first open is being retried
+	ContInterval int     `json:"continue_interval,omitempty"` // seconds between settlement and the pause-or-deal-on decision; operations are injected inside it
 	Steps        []LStep `json:"steps"`
 	Note         string  `json:"note,omitempty"`
 }
@@ -159,7 +160,7 @@ func runLifeCase(c *LCase) {
 			set.JoinPlayers = append(set.JoinPlayers, pt.JoinPlayer{PlayerID: pid(i + 1), RedeemChips: int64(20 + r.Intn(400)), Seat: -1})
 		}
 	}
-	d, err := NewDrv(set, 0)
+	d, err := NewDrv(set, c.ContInterval)
 	if err != nil {
 		c.Note = "create failed"
 		return
@@ -217,8 +218,28 @@ func runLifeCase(c *LCase) {
 		c.Steps = append(c.Steps, s)
 		return &c.Steps[len(c.Steps)-1]
 	}
+	if c.Directed == "create_only" {
+		return
+	}
 	started := false
-	if c.Directed == "late_level" {
+	if c.Mode == "mtt" {
+		// an MTT table starts its game by itself once its players have sat in (playersAutoIn); let that finish
+		for w := 0; w < 150; w++ {
+			if d.te.GetTable().State.StartAt != -1 {
+				started = true
+				break
+			}
+			time.Sleep(10 * time.Millisecond)
+		}
+		if started {
+			for w := 0; w < 100 && len(pt.VerifOpenGameManager(d.te).GetState().Participants) == 0; w++ {
+				time.Sleep(10 * time.Millisecond)
+			}
+			d.Quiesce(quiesceLimit)
+			d.takeEvents()
+		}
+	}
+	if c.Directed == "late_level" && !started {
 		// the blinds are not (all) set when the game is started: the first open is refused and retried every 3 s; the
 		// level arrives during that wait; the hand the retry opens must be played at the level in force THEN
 		started = true
@@ -275,7 +296,22 @@ func runLifeCase(c *LCase) {
 				step("release", func(s *LStep) { d.te.ReleaseTable() })
 			}
 			continue
-		case x < 14 && next < 40:
+		case x < 12:
+			// chips for somebody who busted, through the add-on call (the seat manager learns of it when the next hand ends)
+			busted := ""
+			for _, p := range d.te.GetTable().State.PlayerStates {
+				if p.Bankroll == 0 && p.IsIn {
+					busted = p.PlayerID
+				}
+			}
+			if busted == "" {
+				continue
+			}
+			step("reserve", func(s *LStep) {
+				d.te.PlayerRedeemChips(pt.JoinPlayer{PlayerID: busted, RedeemChips: int64(50 + r.Intn(300)), Seat: -1})
+			})
+			continue
+		case x < 16 && next < 40:
 			id := next
 			next++
 			step("reserve", func(s *LStep) {
@@ -303,7 +339,80 @@ func runLifeCase(c *LCase) {
 					c.Steps = append(c.Steps, LStep{Op: "arm_update_inside_create_game", InCreate: &bb, Pre: pre, Post: pre})
 				}
 			}
-			step("play", func(s *LStep) { d.Advance(pol) })
+			if c.ContInterval == 0 {
+				step("play", func(s *LStep) { d.Advance(pol) })
+			} else {
+				// the decision "pause or deal on" is taken only when the continue interval has elapsed: whatever happens
+				// inside the interval (a re-buy, a newcomer, a blind update, also to a break) must be taken into account
+				var inj *TBlind
+				gc0 := pre.GC
+				choice := r.Intn(4)
+				bnew := genBlind(r)
+				delay := time.Duration(50+r.Intn(300)) * time.Millisecond
+				var injWG sync.WaitGroup
+				var once sync.Once
+				closedHere := false
+				st := step("play", func(s *LStep) {
+					// the injection is released by the settlement notification itself, so that it falls inside the interval
+					d.tap = func(t *pt.Table) {
+						if t.State.Status != pt.TableStateStatus_TableGameSettled {
+							return
+						}
+						once.Do(func() {
+							closedHere = true
+							injWG.Add(1)
+							go func() {
+								defer injWG.Done()
+								time.Sleep(delay)
+								switch choice {
+								case 0:
+									inj = &bnew
+									d.te.UpdateBlind(bnew.Level, bnew.Ante, bnew.Dealer, bnew.SB, bnew.BB)
+								case 1:
+									for _, p := range d.te.GetTable().State.PlayerStates {
+										if p.Bankroll == 0 {
+											d.te.PlayerReserve(pt.JoinPlayer{PlayerID: p.PlayerID, RedeemChips: int64(50 + r.Intn(300)), Seat: -1})
+											break
+										}
+									}
+								case 2:
+									if next < 40 {
+										id := next
+										next++
+										if d.te.PlayerReserve(pt.JoinPlayer{PlayerID: pid(id), RedeemChips: int64(20 + r.Intn(300)), Seat: -1}) == nil {
+											d.JoinAndSettle(pid(id))
+										}
+									}
+								}
+							}()
+						})
+					}
+					d.Advance(pol)
+					d.tap = nil
+					if !closedHere {
+						return
+					}
+					injWG.Wait()
+					// wait for the continue handler: the table pauses, or the gate is set up for the next hand
+					for w := 0; w < 60; w++ {
+						tt := d.te.GetTable()
+						o := pt.VerifOpenGameManager(d.te).GetState()
+						if tt.State.Status == pt.TableStateStatus_TablePausing || tt.State.Status == pt.TableStateStatus_TableClosed ||
+							(o.GameCount == gc0+1 && len(o.Participants) > 0) || tt.State.GameCount > gc0 {
+							break
+						}
+						time.Sleep(50 * time.Millisecond)
+					}
+				})
+				if inj != nil {
+					// recorded as: the level changed (a step of its own), then the hand closed and the decision was taken
+					k := len(c.Steps) - 1
+					upd := LStep{Op: "update_blind", Blind: inj, Pre: st.Pre, Post: st.Pre}
+					upd.Post.Blind = *inj
+					c.Steps[k].Pre.Blind = *inj
+					c.Steps = append(c.Steps[:k], append([]LStep{upd}, c.Steps[k:]...)...)
+				}
+			}
 		case pre.Status == "table_game_standby" || pre.Status == "table_pausing" || pre.Status == "table_created" || pre.Status == "table_balancing" || pre.Status == "table_closed":
 			if pre.GateN > 0 && !pre.GateReady && (pre.GateCount == pre.GC+1 || pre.GC == 0) {
 				if r.Chance(1, 7) {
@@ -355,6 +464,22 @@ func genLife(root *RNG, i int, seed uint64, mode string) LCase {
 	}
 	c.Init = genBlind(r)
 	c.JoinAtCreate = r.Chance(1, 3)
+	if mode == "interval" || r.Chance(1, 4) {
+		c.ContInterval = 1
+	}
+	if mode == "create" {
+		// nothing but CreateTable, over every combination of mode / players handed over at creation / kind of level
+		c.Mode = []string{"ct", "mtt", "cash"}[i%3]
+		c.JoinAtCreate = (i/3)%2 == 1
+		switch (i / 6) % 3 {
+		case 0:
+			c.Init.Level = -1
+		case 1:
+			c.Init = TBlind{Level: 0, Ante: -1, Dealer: -1, SB: -1, BB: -1}
+		}
+		c.Directed = "create_only"
+		return c
+	}
 	if mode == "late_level" || r.Chance(1, 12) {
 		c.Directed = "late_level"
 	}
